@@ -1,0 +1,17 @@
+//go:build verif
+
+// Contracts for govc (see /verif/DESIGN.md). Comment-only; compiled only with -tags verif.
+
+package taddfields
+
+//@ property C15 C07 C12
+
+// every destination field is set to the expansion of its template when that expansion is non-empty, in list order;
+// the scratch buffer is handed from pair to pair and stored back with length 0 or untouched
+//@ func (tf *addFieldsTransform) Transform(record *base.LogRecord) base.FilterResult
+//@   requires tf != nil && record != nil
+//@   requires forall p int :: 0 <= p && p < len(tf.fieldPairs) ==> 0 <= tf.fieldPairs[p].destination && tf.fieldPairs[p].destination < len(record.Fields)
+//@        && (forall k int :: 0 <= k && k < len(tf.fieldPairs[p].sourceTemplate.partProviders) ==> tf.fieldPairs[p].sourceTemplate.partProviders[k] != nil)
+//@   modifies record.Fields[:], tf.buffer, mem(byte)
+//@   ensures  result == base.PASS
+//@   loop 1: invariant -1 <= rangeindex && rangeindex < len(tf.fieldPairs) && fields === record.Fields
